@@ -92,6 +92,14 @@ func newNamedStructEncoder(t reflect.Type, name string, tag ...string) *structEn
 	encoder.Lock()
 	defer encoder.Unlock()
 	registerNamedStructEncoder(t, encoder)
+	built := false
+	defer func() {
+		if !built {
+			// the fields could not be worked out (a panic): a half-built encoder must not
+			// stay registered, it would write objects without fields from now on
+			namedStructEncoderMap.Delete(t)
+		}
+	}()
 	fields := getFields(t, tag...)
 	n := len(fields)
 	var metadata []byte
@@ -109,6 +117,7 @@ func newNamedStructEncoder(t reflect.Type, name string, tag ...string) *structEn
 	encoder.fields = fields
 	encoder.metadata = metadata
 	registerValueEncoder(t, encoder)
+	built = true
 	return encoder
 }
 
